@@ -43,7 +43,9 @@ def apiSetMulticastLevel (lvl : Int) : NetM Unit := do
   let l := (min 4 (max lvl 0)).toNat
   modNode fun n => { n with a := { n.a with netLvl := l } }
   liftRf (Rf24.setListen false)
-  let a ← pipeAddr (lvl2addr l) 0
+  -- `target = _lvl_2_addr(lvl) if self.allow_multicast else self._addr`
+  let n ← getNode
+  let a ← pipeAddr (if n.cfg.allowMulticast then lvl2addr l else n.a.addr) 0
   liftRf (Rf24.openRxPipe 0 a)
   liftRf (Rf24.setListen true)
 
